@@ -59,7 +59,7 @@ MATRIX = _matrix()
 
 
 def streams(ctx):
-    return [("matrix", len(MATRIX)), ("random", ctx.scale(600, 8000))]
+    return [("matrix", len(MATRIX)), ("random", ctx.scale(600, 8000)), ("shapes", ctx.scale(250, 4000))]
 
 
 def gen_case(ctx, stream, idx):
@@ -67,6 +67,12 @@ def gen_case(ctx, stream, idx):
     if stream == "matrix":
         tk, dk, n, pos = MATRIX[idx]
         return irgen.matrix_ir(r, tk, dk, n, pos, with_return=idx % 2 == 1)
+    if stream == "shapes":
+        # nested / single-member / spaced-member / double-quoted Literal types, delimiter characters in str defaults,
+        # punctuation in descriptions (help texts, docstrings)
+        return irgen.rand_ir(r, type_kinds=CORE_T + ("nested", "nested", "str", "literaldq", "literaldq"),
+                             default_kinds=CORE_D + ("strodd", "strodd", "strbad"), nparams=r.randint(1, 6),
+                             doc_kinds=("plain", "punct", "punct"))
     return irgen.rand_ir(r, type_kinds=CORE_T, default_kinds=CORE_D, nparams=r.randint(1, 6))
 
 
@@ -107,8 +113,8 @@ class Dev(Exception):
     pass
 
 
-def dev(P, ctxd, fmt, cfg, field, how, tk, dk, what, src):
-    generic = "exec.%s.%s.%s" % (fmt, field, how)
+def dev(P, ctxd, fmt, cfg, field, how, tk, dk, what, src, mech=None):
+    generic = (mech + "|" if mech else "") + "exec.%s.%s.%s" % (fmt, field, how)
     detail = "style=%s,ta=%s,kw=%s,t=%s,d=%s" % (cfg.get("docstring_format"), cfg.get("type_annotations"),
                                                   cfg.get("emit_as_kwonlyargs"), tk, dk)
     P.deviation(generic + "|" + detail, "%s: %s" % (fmt, what),
@@ -243,7 +249,9 @@ def check_argparse(P, ctxd, fmt, cfg, ir, ns, src):
         if base.startswith("Literal["):
             members = tuple(ast.literal_eval(base[len("Literal"):]))
             if a.choices is None or tuple(a.choices) != members:
-                dev(P, ctxd, fmt, cfg, "choices", "differ", tk, dk, "%s: choices=%r for %s" % (name, a.choices, typ), src)
+                dev(P, ctxd, fmt, cfg, "choices", "differ", tk, dk, "%s: choices=%r for %s" % (name, a.choices, typ), src,
+                    mech="argparse.single-member-literal-without-choices" if len(members) == 1 and a.choices is None
+                    else None)
         elif a.choices is not None:
             dev(P, ctxd, fmt, cfg, "choices", "unexpected", tk, dk, "%s: choices=%r for %s" % (name, a.choices, typ), src)
         # default
@@ -295,7 +303,10 @@ FUNCTION_TYPES = (("static", None), ("self", None), ("cls", None), (None, "stati
 def run_case(ctx, P, stream, idx):
     ir0 = gen_case(ctx, stream, idx)
     sh = irgen.shape(ir0)
+    compound = [p["typ"] for p in ir0["params"].values() if p["typ"] in irgen.NESTED_TYPES and "Literal[" not in p["typ"]]
     for n, (fmt, cfg) in enumerate(configs()):
+        if fmt == "argparse" and compound:
+            continue  # argparse has no notation for compound types (narrowed: C02's documented findings)
         ir = ir0
         if fmt == "function":
             ft, ir_type = FUNCTION_TYPES[(idx + n) % len(FUNCTION_TYPES)]
